@@ -44,6 +44,17 @@ Fixpoint path_elems (path : list str) (kids : list xnode) : list xnode :=
 Definition direct_text (kids : list xnode) : str :=
   flat_map (fun k => match k with XText s => s | XElem _ _ _ => [] end) kids.
 
+(* XML white space (production S): the only characters that can be indentation between tags *)
+Definition is_xml_space (c : byte) : bool := (c =? 32) || (c =? 9) || (c =? 13) || (c =? 10).
+(* strings.TrimLeft(s, " \t\r\n") *)
+Fixpoint trim_left_xml (s : str) : str :=
+  match s with
+  | c :: r => if is_xml_space c then trim_left_xml r else s
+  | [] => []
+  end.
+(* len(strings.Trim(s, " \t\r\n")) == 0 *)
+Definition blank_xml (s : str) : bool := forallb is_xml_space s.
+
 (* ---- induction principle for the nested type ---- *)
 Section XInd.
   Variable P : xnode -> Prop.
